@@ -30,13 +30,23 @@ def run(run, tier):
     for name in (l13.SCHEMAS if tier == "thorough" else l13.QUICK):
         ok, detail = l13.ob_spec_text(name)
         n += 1
-        run.obligation(f"text.{name}", "discharged" if ok else "violated", detail or "canonical text equals the oracle's; fixed point",
-                       paths=1, queries=0)
-        if not ok:
-            text = (f"import sys\nsys.path[:0]=['/verif','/repo']\nfrom props.l13 import ob_spec_text\nok, d = ob_spec_text({name!r})\n"
+        if ok:
+            run.obligation(f"text.{name}", "discharged", "canonical text equals the oracle's; fixed point", paths=1, queries=0)
+        else:
+            text = (f"import sys, os\nsys.path[:0]=[os.environ.get('VF_ROOT','/verif'), os.environ.get('VF_REPO','/repo')]\nfrom props.l13 import ob_spec_text\nok, d = ob_spec_text({name!r})\n"
                     "print('REPRODUCED' if not ok else 'not reproduced', d)\nsys.exit(0 if ok else 1)\n")
-            run.violation(f"text.{name}", f"pcf-text:{name}", detail, text)
+            v = run.violation(f"text.{name}", f"pcf-text:{name}", detail, text)
+            run.obligation(f"text.{name}", v, detail, paths=1, queries=0)
     run.validated += n
+    # dotted spelling vs namespace + name at character level (E1 over the real schema_name, which supplies the
+    # full names the canonical writer prints)
+    from vf.e1 import E1Runner
+    from . import n11
+    sp = [x for x in n11.specs(tier) if x["prefix"].endswith((".spelling", ".schema_name"))]
+    for x in sp:
+        x["prefix"] = x["prefix"].replace("names.char", "fullnames.char")
+    E1Runner(run).check_many(sp, workers=2)
+    run.bounds.append(n11.BOUNDS % (n11.CAP_NAME[0], n11.CAP_NS[0], *n11.CAP_DEF))
     hs = l13.harnesses(tier, run.seed)
     ch.run_harnesses(run, "C13", hs, timeout=150 if tier == "quick" else 500)
     l2.describe(run, tier)
